@@ -83,4 +83,68 @@ theorem C01_validator_ctxcovers_sound (B : Bnds) (defs : List Def) (roots : List
 
 theorem C01_validator_wf_sound (m : Nat) (defs : List Def) (h : wfB m defs = true) : WF m defs := wfB_sound m defs h
 
+
+
+/-! ## non-vacuity: a depth-2 instance `y + max(abs(w), z) ≤ u` (variables y=0, z=1, w=2; r1 = abs(w) = 3, r2 = max(r1, z) = 4)
+
+All hypotheses of `C01_compose` are discharged for this model from the proved gadget theorems; the contexts are the ones
+the converter stores (root `≤` gives neg to `r2`; `max` hands mix to its arguments). -/
+
+def exDefs : List Def := [⟨3, .mix, .abs 2⟩, ⟨4, .neg, .max [3, 1]⟩]
+def exRoots (u : Rat) : List Root := [⟨[(1, 0), (1, 4)], none, some u⟩]
+def exSteps (B : Bnds) : List Step :=
+  [Step.ofGadget ⟨4, .neg, .max [3, 1]⟩ (gMax 4 [3, 1] .neg B 5) 5,
+   Step.ofGadget ⟨3, .mix, .abs 2⟩ (gAbs 3 2 .mix B 5) 5]
+
+theorem C01_compose_example_depth2 (B : Bnds) (u : Rat) (hu : u < pracInf) (x : Asg) :
+    NLsat exDefs (exRoots u) x ↔ ∃ y, Delivered 5 exDefs (exSteps B) (exRoots u) (fun _ => True) x y := by
+  have h1 : ¬ ((1 : Rat) = 0) := by grind
+  have h2 : (0 : Rat) ≤ 1 := by grind
+  have gmax : gMax 4 [3, 1] .neg B 5 = mmConvex 1 4 [3, 1] := by
+    simp [gMax, dispatch, needNeg, needPos, Ctx.eff, Ctx.hasNeg, Ctx.hasPos, mmConvex]
+  apply C01_compose B 3 5 exDefs (exSteps B) (exRoots u) (fun _ => True)
+  · intro _ _ _ _; trivial
+  · intro d
+    simp only [exDefs, exSteps, List.mem_cons, List.not_mem_nil, or_false, Step.ofGadget]
+    constructor
+    · intro h; rcases h with h | h <;> subst h
+      · exact ⟨_, Or.inr rfl, rfl⟩
+      · exact ⟨_, Or.inl rfl, rfl⟩
+    · intro ⟨s, hs, e⟩
+      rcases hs with hs | hs <;> subst hs <;> subst e <;> simp
+  · simp [exDefs, WF, Fun.vars]
+  · intro d hd; simp [exDefs] at hd; rcases hd with hd | hd <;> subst hd <;> simp
+  · intro r hr p hp
+    simp [exRoots] at hr; subst hr
+    simp at hp; rcases hp with hp | hp <;> subst hp <;> simp
+  · intro r hr
+    simp [exRoots] at hr; subst hr
+    exact ⟨by intro l hl; simp at hl, by intro v hv; simp at hv; subst hv; exact hu⟩
+  · apply C01_validator_ctxcovers_sound
+    simp [ctxGaps, ctxUses, exDefs, exRoots, propRangeLin, rangeCtx, propLin, h1, h2, propFun, propDefault, Fun.vars,
+      ctxOf, Ctx.eff, Ctx.plus]
+    decide
+  · simp [exSteps, Chain, Step.ofGadget, gmax, mmConvex, gAbs, dispatch, needNeg, needPos, Ctx.eff, Ctx.hasNeg,
+      Ctx.hasPos, absNeg, absPos]
+  · intro s hs
+    simp only [exSteps, List.mem_cons, List.not_mem_nil, or_false] at hs
+    rcases hs with hs | hs <;> subst hs
+    · apply C01_compose_step_of_gadget 5 (fun _ => True) (fun _ => True) _ _ 5 (Nat.le_refl 5) (fun _ _ => trivial)
+      · exact C01_gadget_max 4 3 [1] .neg B 5 (by decide) (by intro b hb; simp at hb; rcases hb with hb | hb <;> subst hb <;> decide)
+      · intro c hc v hv
+        rw [gmax] at hc ⊢
+        simp [mmConvex] at hc
+        rcases hc with hc | hc <;> subst hc <;> simp [Con.vars] at hv <;> rcases hv with hv | hv <;> subst hv <;> decide
+    · apply C01_compose_step_of_gadget 5 (fun _ => True) (fun _ => True) _ _ 5 (Nat.le_refl 5) (fun _ _ => trivial)
+      · exact C01_gadget_abs 3 2 .mix B 5 (by decide) (by decide)
+      · intro c hc v hv
+        simp [gAbs, dispatch, needNeg, needPos, Ctx.eff, Ctx.hasNeg, Ctx.hasPos, absNeg, absPos] at hc ⊢
+        have hv' : v = 3 ∨ v = 2 ∨ v = 5 := by
+          rcases hc with hc | hc | hc | hc <;> subst hc <;> simp [Con.vars] at hv <;> grind
+        rcases hv' with h | h | h <;> subst h <;> decide
+  · intro y _ d hd
+    simp [exDefs] at hd; rcases hd with hd | hd <;> subst hd <;> simp [FunOK]
+  · trivial
+
+
 end MpVerif.C01
